@@ -935,6 +935,14 @@ impl Compiler {
                 self.builder.free_register(exc_reg);
             }
 
+            // Without a finalizer this statement's handler is gone while the catch body runs
+            // (with one, the VM re-pushed a finally-only handler): loops in the body must record
+            // the try depth that really exists at run time.
+            let handler_gone_in_catch = try_stmt.finalizer.is_none();
+            if handler_gone_in_catch {
+                self.try_depth -= 1;
+            }
+
             // Compile catch body
             if handler.body.body.is_empty() && self.track_completion {
                 // Empty catch block has completion value undefined
@@ -943,6 +951,10 @@ impl Compiler {
                 for stmt in handler.body.body.iter() {
                     self.compile_statement_impl(stmt)?;
                 }
+            }
+
+            if handler_gone_in_catch {
+                self.try_depth += 1;
             }
 
             // Pop scope
@@ -969,9 +981,12 @@ impl Compiler {
             // Compile finally block in its own block scope (its let/const/class declarations
             // must not leak into the enclosing scope)
             self.builder.emit(Op::PushScope);
+            // This statement's handler has been popped when the finally block runs
+            self.try_depth -= 1;
             for stmt in finalizer.body.iter() {
                 self.compile_statement_impl(stmt)?;
             }
+            self.try_depth += 1;
             self.builder.emit(Op::PopScope);
 
             // FinallyEnd completes any pending return/throw
